@@ -19,6 +19,10 @@ Oracle (mc/ref/c06_ref.py, float64, analytic gradient / Hessian):
     probabilities together satisfy detailed balance w.r.t. the reference pi and q;
   * the move happens iff u < alpha, writes x' (else leaves the state untouched), never
     touches keys outside the block;
+  * key discipline (eager, real keys read by the seam): the Gaussian and the uniform draw of
+    one transition use different PRNG keys, none is the kernel's input key, and transitions
+    with different input keys share no key (otherwise the accept decision is a function of
+    the proposal and the realised process is not the one alpha describes);
   * solve / mvn_log_prob / mvn_sample on all lattices of 2x2 / 3x3 Cholesky factors.
 """
 
@@ -50,6 +54,7 @@ ASSUMPTIONS = [
     "reference pi, gradient, Hessian and Gaussian densities are float64 closed forms (finite-difference self-test per unit); liesel computes in float32; tolerances: alpha 2e-4 absolute, log-ratio 2e-3 + 2e-5*magnitude when alpha_ref > 1e-4",
     "the MH acceptance rule itself (u < alpha) is C05's subject; here u only labels the accept / reject branch",
     "a proposal is observed through the accepted state at u = 0; where the reported alpha is exactly 0 (float32 underflow, or the NaN guard with error code 90 after a float32 overflow far out in the Poisson families) the proposal is predicted from the documented law (Cholesky square root) and the reference alpha there must be <= 2e-4",
+    "independence of the proposal draw and the accept draw is checked structurally (distinct PRNG keys per draw, per unit x {standard, adaptive} x 3 input keys, eager); jax.random's independence across distinct split keys is trusted",
     "jit+vmap is trusted to compute the same function as eager execution except on the eager sub-lattice where both are compared",
 ]
 
@@ -788,6 +793,40 @@ def run_kernel(unit):
                     W.fail("eager-vs-jit", case, f"update_state saw proposal {p.tolist()} but accepted state is {xp_j.tolist()}")
         res.outcome("eager", kname, "moved" if got["moved"] else "stay")
 
+    # ---- stage 4: key discipline (eager, real keys visible to the seam) -------------------
+    # the Gaussian proposal draw and the uniform accept draw must use different PRNG keys,
+    # neither may be the kernel's input key, and transitions with different input keys must
+    # not share a key; standard (POSTERIOR) and adaptive (FAST_ADAPTATION) branch
+    def keyt(k):
+        return tuple(int(v) for v in np.asarray(jax.random.key_data(k) if jax.dtypes.issubdtype(k.dtype, jax.dtypes.prng_key) else k).ravel())
+
+    in_keys = [setup.key, jax.random.fold_in(setup.key, 1), jax.random.PRNGKey(int(unit["key"]) + 77)]
+    iz_k = min(1, len(zs) - 1)
+    for etype in (4, 1):
+        seen_keys = {}
+        for ik, kin in enumerate(in_keys):
+            got = _eager_case(setup, thetas[0], zs[iz_k], 0.5, 0.5, etype, key=kin)
+            res.transitions += 1
+            res.executions += 1
+            case = {"theta": thetas[0].tolist(), "z": zs[iz_k].tolist(), "s": 0.5, "u": 0.5, "epoch": etype, "input_key": list(keyt(kin))}
+            draws = got["draws"]
+            fns = sorted(f for f, _ in draws)
+            if fns != ["normal", "uniform"]:
+                raise RuntimeError(f"seam saw draws {fns} in an eager transition")
+            if any(k is None for _, k in draws):
+                raise RuntimeError("seam could not read a concrete key in eager mode")
+            branch = "standard" if etype == 4 else "adaptive"
+            ks_ = [k for _, k in draws]
+            if len(set(ks_)) != len(ks_):
+                W.fail("key-reuse", case, f"the {' and '.join(f for f, _ in draws)} draws of one transition use the same PRNG key {ks_[0]}", sub=branch)
+            if keyt(kin) in ks_:
+                W.fail("key-reuse", case, f"a draw consumes the kernel's input key {keyt(kin)} directly (draws: {draws})", sub=branch + "-input-key")
+            for k in ks_:
+                if k in seen_keys:
+                    W.fail("key-reuse", case, f"key {k} is also used by the transition with input key #{seen_keys[k]}", sub=branch + "-across-transitions")
+                seen_keys[k] = ik
+            res.outcome("keys", kname, branch, "distinct" if len(set(ks_)) == len(ks_) else "shared")
+
     res.extra["noise_" + kname] = {kk: float(v) for kk, v in max_noise.items()}
     res.sample({"unit": tag, "cases": len(idx), "reverse_cases": n, "max_dev": {kk: round(float(v), 6) for kk, v in max_noise.items()}})
     return res
@@ -848,7 +887,7 @@ class _RecIface:
         return self.inner.update_state(position, model_state)
 
 
-def _eager_case(setup: Setup, theta, z, u, s, etype):
+def _eager_case(setup: Setup, theta, z, u, s, etype, key=None):
     import jax
     import jax.numpy as jnp
     from jax.flatten_util import ravel_pytree
@@ -857,6 +896,7 @@ def _eager_case(setup: Setup, theta, z, u, s, etype):
     from mc.seams import ScriptedPRNG
 
     kernel = setup.kernel
+    key = setup.key if key is None else key
     rec = _RecIface(setup.iface, setup.pkeys)
     kernel.set_model(rec)
     try:
@@ -867,7 +907,7 @@ def _eager_case(setup: Setup, theta, z, u, s, etype):
             ep = EpochState(EpochConfig(EpochType(etype), 5, 1, None), 2, 7, 5, 2)
             rec.seen.clear()
             with ScriptedPRNG([jnp.asarray(z, dtype=jnp.float32), jnp.asarray(u, dtype=jnp.float32)]) as sp:
-                out = kernel.transition(setup.key, ks, st, ep)
+                out = kernel.transition(key, ks, st, ep)
                 sp.assert_consumed()
             flat, _ = ravel_pytree(setup.iface.extract_position(setup.pkeys, out.model_state))
             return {
@@ -875,6 +915,7 @@ def _eager_case(setup: Setup, theta, z, u, s, etype):
                 "moved": bool(out.info.position_moved),
                 "xb": np.asarray(flat, dtype=np.float64),
                 "seen": list(rec.seen),
+                "draws": [(e["fn"], k) for e, k in zip(sp.log, sp.keys)],
             }
     finally:
         kernel.set_model(setup.iface)
